@@ -514,6 +514,7 @@ func (d *Decoder) decodeData(tr TemplateRecord) ([]DecodedField, error) {
 	)
 
 	r := d.reader
+	startCount := r.ReadCount()
 
 	for i := 0; i < len(tr.ScopeFieldSpecifiers); i++ {
 		m, ok := InfoModel[ElementKey{
@@ -569,6 +570,12 @@ func (d *Decoder) decodeData(tr TemplateRecord) ([]DecodedField, error) {
 
 	if len(fields) == 0 {
 		return nil, fmt.Errorf("failed to decodeData")
+	}
+
+	// a record that occupies no octets can never end its data set
+	if r.ReadCount() == startCount {
+		return nil, nonfatalError{fmt.Errorf("IPFIX template id# %d describes zero-length records",
+			tr.TemplateID)}
 	}
 
 	return fields, nil
